@@ -8,10 +8,11 @@ open RaftWal.Crash
 
 /-! ### set -/
 
-theorem no_fault_set (p : Proc) (key val : Nat) (wf : WriteFail) :
-    (runOp p (.set key val) none wf).1.disk = p.disk.applyAll (prog p.disk (.set key val)) ∧
-    (runOp p (.set key val) none wf).2 = true ∧ (runOp p (.set key val) none wf).1.frozen = p.frozen := by
-  simp only [runOp, runActs, prog, setProg, applyAll_cons, applyAll_nil, apply_ack]
+theorem no_fault_set (p : Proc) (key val : Nat) {pl : Plan} (h : AllNone pl) :
+    (runOp p (.set key val) pl).1.disk = p.disk.applyAll (prog p.disk (.set key val)) ∧
+    (runOp p (.set key val) pl).2 = true ∧ (runOp p (.set key val) pl).1.frozen = p.frozen := by
+  simp only [runOp, prog, setProg]
+  rw [runActs_none_nowrite _ (NoWrite.cons (by rfl) NoWrite.nil) h]
   exact ⟨rfl, rfl, trivial⟩
 
 /-! ### head truncation -/
@@ -25,21 +26,21 @@ theorem NoWrite.delHead (d : Disk) (newMin : Nat) : NoWrite (delHeadProg d newMi
   · exact (NoWrite.append (NoWrite.append (NoWrite.cons (by rfl) NoWrite.nil) (NoWrite.deletesOf _ _))
       (NoWrite.cons (by rfl) NoWrite.nil))
 
-theorem no_fault_delHead {p : Proc} (hp : Fresh p) (newMin : Nat) (wf : WriteFail) :
-    (runOp p (.delHead newMin) none wf).1.disk = p.disk.applyAll (prog p.disk (.delHead newMin)) ∧
-    (runOp p (.delHead newMin) none wf).2 = true ∧ (runOp p (.delHead newMin) none wf).1.frozen = none := by
+theorem no_fault_delHead {p : Proc} (hp : Fresh p) (newMin : Nat) {pl : Plan} (h : AllNone pl) :
+    (runOp p (.delHead newMin) pl).1.disk = p.disk.applyAll (prog p.disk (.delHead newMin)) ∧
+    (runOp p (.delHead newMin) pl).2 = true ∧ (runOp p (.delHead newMin) pl).1.frozen = none := by
   simp only [runOp, hp.2, Option.isSome_none, Bool.false_eq_true, ↓reduceIte, vdisk_fresh hp.1, prog]
-  rw [runActs_none_nowrite _ _ ((NoWrite.delHead _ _).filter _)]
+  rw [runActs_none_nowrite _ ((NoWrite.delHead _ _).filter _) h]
   simp only [applyAll_filter_ack]
   exact ⟨trivial, trivial, trivial⟩
 
 /-! ### tail truncation -/
 
 /-- a list of actions with at most one pwrite, run from a clean disk -/
-theorem runActs_none_one_write {d : Disk} (hc : Clean d) (wf : WriteFail) {pre rest : List Act} (h1 : NoWrite pre)
-    (h2 : NoWrite rest) (a : Act) :
-    runActs d wf (pre ++ a :: rest) none = (d.applyAll (pre ++ a :: rest), none, none) := by
-  rw [runActs_none, List.foldl_append, List.foldl_cons, foldl_applyF_nowrite d h1,
+theorem runActs_none_one_write {d : Disk} (hc : Clean d) {pre rest : List Act} (h1 : NoWrite pre)
+    (h2 : NoWrite rest) (a : Act) {pl : Plan} (h : AllNone pl) :
+    runActs d (pre ++ a :: rest) pl = (d.applyAll (pre ++ a :: rest), none, pl.drop (pre ++ a :: rest).length) := by
+  rw [runActs_none _ _ h, List.foldl_append, List.foldl_cons, foldl_applyF_nowrite d h1,
     applyF_clean (clean_applyAll_nowrite hc h1), foldl_applyF_nowrite _ h2, applyAll_append, applyAll_cons]
 
 theorem unsealed_is_tail {d : Disk} {P : List Seg} {t : Seg} {f : File} (h : QS d P t f) {s : Seg}
@@ -75,9 +76,9 @@ theorem delTailActs_eq {d : Disk} {P : List Seg} {t : Seg} {f : File} (h : QS d 
       simp only [hu, h.tf, h.qt.ss, Bool.or_false, Bool.false_eq_true, ↓reduceIte]
       exact ⟨_, _, hN, Or.inr ⟨_, _, _, rfl⟩, rfl, by simp only [List.append_assoc]⟩
 
-theorem no_fault_delTail {p : Proc} (hp : Fresh p) (newMax : Nat) (wf : WriteFail) :
-    (runOp p (.delTail newMax) none wf).1.disk = p.disk.applyAll (prog p.disk (.delTail newMax)) ∧
-    (runOp p (.delTail newMax) none wf).2 = true ∧ (runOp p (.delTail newMax) none wf).1.frozen = none := by
+theorem no_fault_delTail {p : Proc} (hp : Fresh p) (newMax : Nat) {pl : Plan} (h : AllNone pl) :
+    (runOp p (.delTail newMax) pl).1.disk = p.disk.applyAll (prog p.disk (.delTail newMax)) ∧
+    (runOp p (.delTail newMax) pl).2 = true ∧ (runOp p (.delTail newMax) pl).1.frozen = none := by
   obtain ⟨P, t, f, hq⟩ := (quiescentS_iff p.disk).1 hp.1
   have hc := clean_of_QS hq
   simp only [runOp, hp.2, Option.isSome_none, Bool.false_eq_true, ↓reduceIte, vdisk_fresh hp.1, prog]
@@ -85,10 +86,11 @@ theorem no_fault_delTail {p : Proc} (hp : Fresh p) (newMax : Nat) (wf : WriteFai
   · rw [e1, e2]
     exact ⟨rfl, rfl, rfl⟩
   · rw [e1, e2]
-    have : runActs p.disk wf (force ++ rest) none = (p.disk.applyAll (force ++ rest), none, none) := by
+    have : runActs p.disk (force ++ rest) pl =
+        (p.disk.applyAll (force ++ rest), none, pl.drop (force ++ rest).length) := by
       rcases hf with rfl | ⟨id, es, sl, rfl⟩
-      · exact runActs_none_nowrite _ _ hr
-      · exact runActs_none_one_write hc wf NoWrite.nil (NoWrite.cons (by rfl) hr) _
+      · exact runActs_none_nowrite _ hr h
+      · exact runActs_none_one_write hc NoWrite.nil (NoWrite.cons (by rfl) hr) _ h
     rw [this]
     simp only [applyAll_append, applyAll_cons, applyAll_nil, apply_ack]
     exact ⟨trivial, trivial, trivial⟩
